@@ -141,6 +141,7 @@ Proof.
   - intros lr s1 H1. destruct (I_dd _ _ H1) as (a1 & R1 & R). exists a1. split; [apply Hsl; auto|auto].
   - intros s1 H1. destruct (I_ur _ H1) as (a1 & R1 & R2 & R3). exists a1. split; [apply Hsl; auto|]. split; auto.
   - intros s1 H1. destruct (I_dg _ H1) as (a1 & R1 & R). exists a1. split; [apply Hsl; auto|auto].
+  - intros s1 a1 H1 K1. apply Hsl in H1. eauto.
 Qed.
 
 (* ---------------------------------------------------------------- one list and one slot change together *)
@@ -171,9 +172,10 @@ Lemma VamInvU_region_update c v U X X' lr l0 l' s a' :
   (forall s1, s1 <> s -> In s1 X -> In s1 X') ->
   (forall a1, slot_is v s a1 -> a_kind a1 = 1 -> a_lref a1 = lr) ->
   (In s X' -> forall b' rg, In b' (bl_blocks l') -> In rg (meta_live (bk_meta b')) -> rg_tag rg <> Some s) ->
+  (a_allocated a' = true -> Bits.pow2 (a_align a')) ->
   VamInvU c (set_alloc (set_blist v lr l') s a') U X'.
 Proof.
-  intros HI H0 Hwf Hty Hfw Hbw Hs Hold Hnew Hkeep Hreg Hself HX1 HX2 HX3 Hlr HX5.
+  intros HI H0 Hwf Hty Hfw Hbw Hs Hold Hnew Hkeep Hreg Hself HX1 HX2 HX3 Hlr HX5 Hpow.
   inv_fields HI.
   set (v1 := set_blist v lr l'). set (v' := set_alloc v1 s a').
   assert (Hcases := get_set_blist_cases v lr l0 l').
@@ -271,6 +273,7 @@ Proof.
       rewrite Htag in T1. injection T1 as <-. apply Hne. rewrite <- T4. apply Hlr; auto.
   - rewrite Hm'. auto.
   - rewrite Hm'. auto.
+  - intros s1 a1 H1 K1. destruct (Z.eq_dec s1 s) as [->|Hne]; [apply Hsame in H1; destruct H1 as (-> & Ha); auto|apply Hoth in H1; eauto].
 Qed.
 
 Lemma put_block_eq v lr l b : get_blist v lr = Some l ->
@@ -278,16 +281,18 @@ Lemma put_block_eq v lr l b : get_blist v lr = Some l ->
 Proof. intros H. unfold put_block. rewrite H. reflexivity. Qed.
 
 Lemma blist_wf_replace c l nb :
-  blist_wf c l -> MInv (bk_meta nb) -> In (bk_id nb) (map bk_id (bl_blocks l)) ->
+  blist_wf c l -> MInv (bk_meta nb) -> meta_g (bk_meta nb) = bl_gran l -> In (bk_id nb) (map bk_id (bl_blocks l)) ->
   blist_wf c (set_blocks l (replace_block (bl_blocks l) nb)).
 Proof.
-  intros [H1 H2 H3 H4 H5 H6 H7] Hm Hin. constructor; cbn; auto.
+  intros [H1 H2 H3 H4 H5 H6 H7 H8] Hm Hgm Hin. constructor; cbn; auto.
   - rewrite replace_block_ids. auto.
   - apply Forall_forall. intros b Hb. destruct (in_replace_block _ _ _ H1 Hb) as [(-> & Hi)|(Hi & _)].
     + apply in_map_iff in Hi. destruct Hi as (x & Hx & Hix). rewrite Forall_forall in H2. rewrite <- Hx. auto.
     + rewrite Forall_forall in H2. auto.
   - apply Forall_forall. intros b Hb. destruct (in_replace_block _ _ _ H1 Hb) as [(-> & Hi)|(Hi & _)]; [auto|].
     rewrite Forall_forall in H3. auto.
+  - apply Forall_forall. intros b Hb. destruct (in_replace_block _ _ _ H1 Hb) as [(-> & Hi)|(Hi & _)]; [auto|].
+    rewrite Forall_forall in H8. auto.
 Qed.
 
 (* a block whose metadata / mapping state changes while identity, memory and size stay *)
@@ -315,14 +320,14 @@ Qed.
 Lemma VamInvU_alloc_region c v U X lr l b sm' mt' s a h off l1 l2 :
   VamInvU c v U X -> get_blist v lr = Some l -> In b (bl_blocks l) ->
   0 <= s < zlen (v_tab v) -> a_allocated (get_alloc v s) = false ->
-  MInv mt' -> meta_size mt' = meta_size (bk_meta b) ->
+  MInv mt' -> meta_size mt' = meta_size (bk_meta b) -> meta_g mt' = meta_g (bk_meta b) ->
   meta_live (bk_meta b) = l1 ++ l2 ->
   meta_live mt' = l1 ++ new_region h off (a_size a) s (a_align a) :: l2 ->
   a_allocated a = true -> a_kind a = 1 -> a_lref a = lr -> a_blk a = bk_id b -> a_handle a = h ->
-  a_mem a = bk_mem b -> a_type a = bl_type l ->
+  a_mem a = bk_mem b -> a_type a = bl_type l -> Bits.pow2 (a_align a) ->
   VamInvU c (set_alloc (put_block v lr (mkBlock (bk_id b) (bk_mem b) sm' mt')) s a) U X.
 Proof.
-  intros HI Hg Hb Hs Hdead Hmi Hsz Hl Hl' Ha Hk Hlr Hblk Hh Hmem Hty.
+  intros HI Hg Hb Hs Hdead Hmi Hsz Hgm Hl Hl' Ha Hk Hlr Hblk Hh Hmem Hty Hpow.
   set (nb := mkBlock (bk_id b) (bk_mem b) sm' mt').
   rewrite (put_block_eq _ _ _ _ Hg).
   pose proof (vi_lists _ _ _ _ HI _ _ Hg) as Hwf. pose proof (bw_nodup _ _ Hwf) as Hnd.
@@ -338,7 +343,8 @@ Proof.
   assert (Hnbin : In nb (replace_block (bl_blocks l) nb)).
   { apply replace_block_in. cbn. apply in_map. auto. }
   apply VamInvU_region_update with (X := X) (l0 := l); auto.
-  - apply blist_wf_replace; auto. cbn. apply in_map. auto.
+  - apply blist_wf_replace; auto; cbn; [|apply in_map; auto].
+    rewrite Hgm. pose proof (bw_g _ _ Hwf) as Hbg. rewrite Forall_forall in Hbg. auto.
   - intros (H & _). congruence.
   - intros b0 b' rg Hb0 Hb' Hid Hrg Htag. cbn in Hb'.
     destruct (in_replace_block _ _ _ Hnd Hb') as [(-> & _)|(Hi & Hne)].
@@ -389,12 +395,12 @@ Qed.
 Lemma VamInvU_free_region c v U X lr l b sm' mt' s a l1 rg0 l2 :
   VamInvU c v U X -> slot_is v s a -> ~ In s X -> a_kind a = 1 -> a_lref a = lr ->
   get_blist v lr = Some l -> In b (bl_blocks l) -> bk_id b = a_blk a ->
-  MInv mt' -> meta_size mt' = meta_size (bk_meta b) ->
+  MInv mt' -> meta_size mt' = meta_size (bk_meta b) -> meta_g mt' = meta_g (bk_meta b) ->
   meta_live (bk_meta b) = l1 ++ rg0 :: l2 -> rg_handle rg0 = a_handle a ->
   meta_live mt' = l1 ++ l2 ->
   VamInvU c (put_block v lr (mkBlock (bk_id b) (bk_mem b) sm' mt')) U (s :: X).
 Proof.
-  intros HI Hsl HnX Hk Hlr Hg Hb Hid Hmi Hsz Hl Hh Hl'.
+  intros HI Hsl HnX Hk Hlr Hg Hb Hid Hmi Hsz Hgm Hl Hh Hl'.
   set (nb := mkBlock (bk_id b) (bk_mem b) sm' mt').
   rewrite (put_block_eq _ _ _ _ Hg).
   pose proof (vi_lists _ _ _ _ HI _ _ Hg) as Hwf. pose proof (bw_nodup _ _ Hwf) as Hnd.
@@ -429,7 +435,8 @@ Proof.
       destruct (Honly _ _ Hb H Htag) as (_ & Hh'). eapply (NoDup_handles_mid l1 l2 rg0 rg); eauto.
     - destruct (Honly _ _ Hi Hrg Htag) as (-> & _). apply Hne. reflexivity. }
   apply VamInvU_region_update with (X := X) (l0 := l); auto.
-  - apply blist_wf_replace; auto. cbn. apply in_map. auto.
+  - apply blist_wf_replace; auto; cbn; [|apply in_map; auto].
+    rewrite Hgm. pose proof (bw_g _ _ Hwf) as Hbg. rewrite Forall_forall in Hbg. auto.
   - eapply slot_is_range; eauto.
   - rewrite (get_alloc_slot _ _ _ Hsl). intros (_ & K). congruence.
   - intros b0 b' rg Hb0 Hb' Hid' Hrg Htag. cbn in Hb'.
@@ -451,6 +458,7 @@ Proof.
   - intros _. destruct Hsl. auto.
   - intros s1 _ H. right. auto.
   - intros a1 H _. assert (a1 = a) by (destruct H, Hsl; congruence). subst. auto.
+  - intros _. eapply vi_align; eauto.
 Qed.
 
 (* the dangling Allocation object is finally marked unallocated *)
@@ -494,6 +502,7 @@ Proof.
   - intros s1 H1. destruct (HX1 _ H1) as (Hi & Hne). destruct (I_dg _ Hi) as (a1 & R1 & R2). exists a1.
     split; [apply Hoth; auto|auto].
   - intros s1 lr l b rg H1. destruct (HX1 _ H1) as (Hi & Hne). eapply I_dt2; eauto.
+  - intros s1 a1 H1 K1. apply Hfw in H1. destruct H1. eauto.
 Qed.
 
 (* ---------------------------------------------------------------- memory objects come and go *)
@@ -558,13 +567,14 @@ Lemma VamInvU_add_block c v U X lr l m1 d b :
   m_mems m1 = m_mems (v_m v) ++ [d] -> dm_id d = m_next (v_m v) + 1 -> m_next m1 = dm_id d ->
   dm_type d = bl_type l -> bk_id b = bl_next l -> bk_mem b = dm_id d ->
   MInv (bk_meta b) -> meta_live (bk_meta b) = [] -> meta_size (bk_meta b) = dm_size d -> 0 < dm_size d ->
+  meta_g (bk_meta b) = bl_gran l ->
   VamInvU c (set_blist (set_m v m1) lr (set_blocks_next l (bl_blocks l ++ [b]) (bl_next l + 1))) U X.
 Proof.
-  intros HI H0 Hmems Hid Hnext Hty Hbid Hbmem Hmi Hlive Hsz Hpos. inv_fields HI.
+  intros HI H0 Hmems Hid Hnext Hty Hbid Hbmem Hmi Hlive Hsz Hpos Hbg. inv_fields HI.
   set (l' := set_blocks_next l (bl_blocks l ++ [b]) (bl_next l + 1)).
   rewrite set_blist_set_m. set (v1 := set_blist v lr l').
   assert (Hcases := get_set_blist_cases v lr l l').
-  pose proof (I_wf _ _ H0) as [W1 W2 W3 W4 W5 W6 W7].
+  pose proof (I_wf _ _ H0) as [W1 W2 W3 W4 W5 W6 W7 W8].
   assert (Hfresh : forall x, In x (m_mems (v_m v)) -> dm_id x <> dm_id d).
   { intros x Hx. rewrite Forall_forall in I_dx. specialize (I_dx x Hx). lia. }
   assert (Hfind : forall id x, find_mem (m_mems (v_m v)) id = Some x -> find_mem (m_mems m1) id = Some x).
@@ -590,6 +600,7 @@ Proof.
       * intros x Hx [E|[]]. apply in_map_iff in Hx. destruct Hx as (y & Hy & Hiy). rewrite Forall_forall in W2.
         specialize (W2 y Hiy). lia.
     + apply Forall_app. split; [eapply Forall_impl; [|exact W2]; cbn; intros; lia|]. constructor; [lia|constructor].
+    + apply Forall_app. split; [auto|]. constructor; auto.
     + apply Forall_app. split; [auto|]. constructor; auto.
   - cbn. unfold v1. rewrite set_blist_uids. auto.
   - cbn. unfold v1. rewrite set_blist_next_uid. eapply Forall_map_eq with (f := p_uid) (P := fun u => u < v_next_uid v);
@@ -670,6 +681,7 @@ Proof.
   - cbn. rewrite Hnext, Hid. lia.
   - cbn. rewrite Hmems. apply Forall_app. split; [auto|]. constructor; [|constructor].
     exact Hpos.
+  - intros s a H K. apply Hsl1 in H. eauto.
 Qed.
 
 (* an empty block leaves list lr and its memory object is freed *)
@@ -681,7 +693,7 @@ Proof.
   intros HI H0 Hb Hlive Hmems Hnext. inv_fields HI.
   set (l' := set_blocks l (remove_block (bl_blocks l) (bk_id b))). set (v1 := set_blist v lr l').
   assert (Hcases := get_set_blist_cases v lr l l').
-  pose proof (I_wf _ _ H0) as [W1 W2 W3 W4 W5 W6 W7].
+  pose proof (I_wf _ _ H0) as [W1 W2 W3 W4 W5 W6 W7 W8].
   assert (Hg1 : forall lr1, get_blist (set_m v1 m1) lr1 = get_blist v1 lr1) by (intros; apply get_blist_set_m).
   assert (Hsl1 : forall s a, slot_is (set_m v1 m1) s a <-> slot_is v s a).
   { intros. rewrite slot_is_set_m. apply slot_is_set_blist. }
@@ -710,6 +722,7 @@ Proof.
     + apply remove_block_nodup. auto.
     + apply Forall_forall. intros x Hx. rewrite Forall_forall in W2. apply W2. eapply in_remove_block; eauto.
     + apply Forall_forall. intros x Hx. rewrite Forall_forall in W3. apply W3. eapply in_remove_block; eauto.
+    + apply Forall_forall. intros x Hx. rewrite Forall_forall in W8. apply W8. eapply in_remove_block; eauto.
   - cbn. unfold v1. rewrite set_blist_uids. auto.
   - cbn. unfold v1. rewrite set_blist_next_uid. eapply Forall_map_eq with (f := p_uid) (P := fun u => u < v_next_uid v);
       [symmetry; apply set_blist_uids|reflexivity|exact I_pu].
@@ -761,6 +774,7 @@ Proof.
     eapply I_dt2; eauto.
   - cbn. lia.
   - cbn. rewrite Hmems. apply Forall_forall. intros x Hx. rewrite Forall_forall in I_dp. apply I_dp. eapply in_remove_mem; eauto.
+  - intros s a H K. apply Hsl1 in H. eauto.
 Qed.
 
 (* ---------------------------------------------------------------- dedicated allocations *)
@@ -861,6 +875,7 @@ Proof.
   - unfold v'. cbn. apply Forall_forall. intros x' Hx'. destruct (mems_same_in _ _ _ Hmems Hx') as (x & Hx & Hkx).
     assert (E : dm_size x' = dm_size x) by (unfold mem_key in Hkx; congruence). rewrite E.
     apply in_app_iff in Hx. destruct Hx as [Hx|[<-|[]]]; [|exact Hpos]. rewrite Forall_forall in I_dp. auto.
+  - intros s1 a1 H K. destruct (Hcase _ _ H) as [(-> & ->)|(_ & H1)]; [congruence|eauto].
 Qed.
 
 (* the dedicated allocation of slot s goes away: its memory object is freed and the slot becomes unallocated;
@@ -930,6 +945,7 @@ Proof.
   - intros s1 lr l b rg Hin. rewrite Hg'. eauto.
   - lia.
   - rewrite Hmems. apply Forall_forall. intros x Hx. rewrite Forall_forall in I_dp. apply I_dp. eapply in_remove_mem; eauto.
+  - intros s1 a1 S K. apply Hfw in S. destruct S. eauto.
 Qed.
 
 (* Register: the unregistered dedicated allocations (all of list lr) are appended to the dedicated list *)
@@ -988,6 +1004,7 @@ Proof.
   - intros s lr1 l b rg Hin. rewrite Hg'. eauto.
   - rewrite Hm. auto.
   - rewrite Hm. auto.
+  - intros s a H K. apply Hsl in H. eauto.
 Qed.
 
 (* ---------------------------------------------------------------- observational equality *)
@@ -1054,6 +1071,7 @@ Proof.
   - intros s lr l b rg Hin. rewrite E1. eauto.
   - rewrite E4. auto.
   - rewrite E4. auto.
+  - intros s a H K. apply Hsl in H. eauto.
 Qed.
 
 Lemma set_blist_global0 v lr l : v_global (set_blist v lr l) = v_global v.
@@ -1239,6 +1257,7 @@ Proof.
   - intros s1 lr l b rg Hin. rewrite Hg'. eauto.
   - exact I_nn.
   - exact I_dp.
+  - intros s1 a1 S K. destruct (Hfw _ _ S) as (a0 & S0 & K0 & _ & _ & _ & _ & _ & _ & A0). rewrite <- A0. eapply I_al; eauto. congruence.
 Qed.
 
 (* ---------------------------------------------------------------- pools *)
@@ -1309,6 +1328,7 @@ Proof.
   - intros s lr l b rg Hin H Hb. destruct (Hgold _ _ H) as [(_ & ->)|(_ & G)]; [rewrite Hemp in Hb; destruct Hb|eauto].
   - exact I_nn.
   - exact I_dp.
+  - intros s a S K. apply Hsl in S. eauto.
 Qed.
 
 Lemma find_remove_pool ps uid u : find_pool (remove_pool ps uid) u = if u =? uid then find_pool (remove_pool ps uid) u else find_pool ps u.
@@ -1397,4 +1417,5 @@ Proof.
   - intros s lr l b rg Hin H. destruct (Hgold _ _ H). eauto.
   - exact I_nn.
   - exact I_dp.
+  - intros s a S K. apply Hsl in S. eauto.
 Qed.
